@@ -1,6 +1,7 @@
 //! hv: conformance harness binding the TLA+ specification in /verif/spec to the hpo crate.
 mod cmd_core;
 mod cmd_sim;
+mod cmd_set;
 mod enc;
 mod paths;
 mod project;
@@ -19,6 +20,7 @@ fn main() {
     match argv[1].as_str() {
         "replay-core" => cmd_core::run(&args),
         "replay-sim" => cmd_sim::run(&args),
+        "replay-set" => cmd_set::run(&args),
         "replay-one" => {
             let text = std::fs::read_to_string(args.req("file")).unwrap_or_else(|e| {
                 eprintln!("cannot read replay file: {e}");
@@ -31,6 +33,7 @@ fn main() {
             let reproduced = match v["cmd"].as_str().unwrap_or("") {
                 "replay-core" => cmd_core::replay_one(&v),
                 "replay-sim" => cmd_sim::replay_one(&v),
+                "replay-set" => cmd_set::replay_one(&v),
                 other => {
                     eprintln!("unknown replay cmd {other}");
                     std::process::exit(2)
